@@ -26,7 +26,8 @@ fi
 export SEED_SRC="$src" SEED_WT="$wt"
 
 rundemo clean; d0=$?
-( cd "$wt" && git apply "$src/patch.diff" ) >"$log/apply.log" 2>&1 || { echo "SEED $name patch-does-not-apply"; cat "$log/apply.log"; git -C /repo worktree remove --force "$wt"; exit 1; }
+# demo files are untracked; the patch is applied plainly, or by 3-way merge if /repo moved on (hook commits) since it was written
+( cd "$wt" && { git apply "$src/patch.diff" || git apply --3way "$src/patch.diff"; } && git reset -q && git diff > "$log/patch.applied.diff" ) >"$log/apply.log" 2>&1 || { echo "SEED $name patch-does-not-apply"; cat "$log/apply.log"; git -C /repo worktree remove --force "$wt"; exit 1; }
 # remove demo files before the suite so that the suite is the original one
 ( cd "$wt" && git status --porcelain | awk '$1=="??"{print $2}' | xargs -r rm -rf )
 ( cd "$wt" && go build ./... && go test -vet=off -count=1 -timeout 25m ./... ) >"$log/suite.log" 2>&1; s=$?
